@@ -7,6 +7,7 @@ From Coq Require Import ZArith List Bool Lia.
 From Emmet Require Import lib.Base model.MarkupTokenizer model.MarkupParser model.MarkupConvert model.MarkupResolve
      model.OutStream model.FormatHtml model.FormatIndent model.MarkupExpand
      proofs.TextSpec proofs.TextProofs proofs.TextLiteral proofs.AttrProofs proofs.AttrText proofs.AttrTextParse proofs.AttrTextConvert.
+From Emmet Require proofs.ExpandTree.
 Local Open Scope nat_scope.
 
 (* ================================================================ markup.parse *)
@@ -22,22 +23,16 @@ Definition xsl_rule_applies (cfg : mconfig) (e : selem) : bool :=
   && (str_eqb (se_name e) s_xsl_variable || str_eqb (se_name e) s_xsl_with_param)
   && match elem_text_value e with Some (_ :: _) => true | _ => false end.
 
-Theorem markup_parse_elem cfg e :
-  selem_ok e -> jsx_ok (mc_jsx cfg) e -> mc_text cfg = WNone ->
-  assoc_str (se_name e) (mc_snippets cfg) = None ->        (* the name is not a snippet *)
-  match_lorem (se_name e) = LNo ->                         (* ... and not lorem / loremN *)
-  xsl_rule_applies cfg e = false ->
-  markup_parse cfg (elem_text e) = Ok [resolved_node (mc_reverse_attrs cfg) e].
+(* the steps of transform before the BEM addon, on the node of a written element *)
+Lemma transform_pre_elem cfg pn top e :
+  se_name e <> [] -> match_lorem (se_name e) = LNo -> xsl_rule_applies cfg e = false ->
+  transform_node_pre cfg pn top (elem_node e) = (resolved_node (mc_reverse_attrs cfg) e, false).
 Proof.
-  intros Hok Hj Htext Hsnip Hlorem Hxsl. unfold markup_parse.
-  rewrite (element_attributes_text (mc_jsx cfg) (mkCenv (mc_text cfg) (mc_variables cfg) (mc_href cfg)) (mc_max_repeat cfg) e Hok Hj Htext). cbn [bind].
-  destruct Hok as [[Hne _] _]. unfold elem_node. unfold xsl_rule_applies in Hxsl.
+  intros Hne Hlorem Hxsl. unfold elem_node. unfold xsl_rule_applies in Hxsl.
   unfold resolved_node, merged_mentions.
   set (V := elem_text_value e) in *. set (M := written_mentions e) in *. clearbody V M.
   destruct (se_name e) as [|c0 nm] eqn:En; [congruence|].
-  cbn [walk_resolve]. rewrite Hsnip. cbn [bind app].
-  cbn [transform_list transform_tree andb is_input_name fst].
-  unfold transform_node. cbn [nonempty]. rewrite Hlorem.
+  unfold transform_node_pre. cbn [nonempty]. rewrite Hlorem.
   replace (opt_str_eqb (Some (c0 :: nm)) s_label && has_input _) with false
     by (cbn [has_input]; rewrite andb_false_r; reflexivity).
   cbn [opt_str_eqb orb].
@@ -50,6 +45,31 @@ Proof.
   - destruct (str_eqb (mc_syntax cfg) s_xsl && (str_eqb (c0 :: nm) s_xsl_variable || str_eqb (c0 :: nm) s_xsl_with_param));
       cbn [andb] in Hxsl |- *; [|reflexivity].
     rewrite Hxsl, andb_false_r. reflexivity.
+Qed.
+
+(* BEM off ([mc_bem cfg = false]: the BEM addon rewrites class values -- `-`/`_` prefixes, block names from
+   the ancestors -- and is not the subject here) *)
+Theorem markup_parse_elem cfg e :
+  selem_ok e -> jsx_ok (mc_jsx cfg) e -> mc_text cfg = WNone ->
+  assoc_str (se_name e) (mc_snippets cfg) = None ->        (* the name is not a snippet *)
+  match_lorem (se_name e) = LNo ->                         (* ... and not lorem / loremN *)
+  xsl_rule_applies cfg e = false ->
+  mc_bem cfg = false ->
+  markup_parse cfg (elem_text e) = Ok [resolved_node (mc_reverse_attrs cfg) e].
+Proof.
+  intros Hok Hj Htext Hsnip Hlorem Hxsl Hbem. unfold markup_parse.
+  rewrite (element_attributes_text (mc_jsx cfg) (mkCenv (mc_text cfg) (mc_variables cfg) (mc_href cfg)) (mc_max_repeat cfg) e Hok Hj Htext). cbn [bind].
+  destruct Hok as [[Hne _] _].
+  assert (Hw : walk_resolve (S (length (mc_snippets cfg))) cfg [] [elem_node e] = Ok [elem_node e]).
+  { unfold elem_node. destruct (se_name e) as [|c0 nm] eqn:En; [congruence|].
+    cbn [walk_resolve]. rewrite Hsnip. reflexivity. }
+  rewrite Hw. cbn [bind transform_list].
+  assert (Ht : transform_tree cfg None true false [] (elem_node e) =
+               Ok (resolved_node (mc_reverse_attrs cfg) e, false, [])).
+  { unfold elem_node at 1. rewrite ExpandTree.transform_tree_eq. cbv zeta. cbn [andb].
+    fold (elem_node e). unfold transform_node. rewrite (transform_pre_elem cfg None true e Hne Hlorem Hxsl). rewrite Hbem.
+    cbn [bind]. unfold resolved_node. cbn [ExpandTree.tt_kids bind length firstn]. reflexivity. }
+  rewrite Ht. reflexivity.
 Qed.
 
 (* ================================================================ the HTML formatter on a leaf element *)
@@ -225,7 +245,7 @@ Theorem expand_element_text x e :
   let c := xc_o x in
   selem_ok e -> jsx_ok (mc_jsx m) e -> mc_text m = WNone ->
   assoc_str (se_name e) (mc_snippets m) = None -> match_lorem (se_name e) = LNo ->
-  xsl_rule_applies m e = false ->
+  xsl_rule_applies m e = false -> mc_bem m = false ->
   html_family (mc_syntax m) -> oc_comment_enabled c = false ->
   oc_format_leaf c = false -> mem_str (se_name e) (oc_format_force c) = false ->
   let attrs := merge_spec (mc_reverse_attrs m) [] (written_mentions e) in
@@ -235,9 +255,9 @@ Theorem expand_element_text x e :
     Ok (c_lt :: tag_name c (se_name e) ++ attrs_text_out c attrs
         ++ leaf_tail c (tag_name c (se_name e)) (se_close e) (elem_text_value e)).
 Proof.
-  cbv zeta. intros Hok Hj Htext Hsnip Hlorem Hxsl [Hs1 [Hs2 Hs3]] Hcom Hleaf Hforce Hattrs Hval.
+  cbv zeta. intros Hok Hj Htext Hsnip Hlorem Hxsl Hbem [Hs1 [Hs2 Hs3]] Hcom Hleaf Hforce Hattrs Hval.
   unfold expand_markup_str, expand_markup.
-  rewrite (markup_parse_elem (xc_m x) e Hok Hj Htext Hsnip Hlorem Hxsl). cbn [bind].
+  rewrite (markup_parse_elem (xc_m x) e Hok Hj Htext Hsnip Hlorem Hxsl Hbem). cbn [bind].
   unfold stringify_markup. rewrite Hs1, Hs2, Hs3. unfold resolved_node.
   pose proof Hok as [[Hne HF] _].
   rewrite (html_leaf_value (xc_o x) (se_name e) (elem_text_value e) (merged_mentions (mc_reverse_attrs (xc_m x)) e)
